@@ -45,7 +45,7 @@ def response_bytes(spec, op, v, request_op):
     if r["kind"] == "success":
         p = r["payload"]
         kids = op.enc(p, v)
-        data = W.build_response(v, request_op, W.STATUS_SUCCESS, payload_children=kids)
+        data = W.build_response(v, request_op, W.STATUS_SUCCESS, payload_children=kids, hdr=r.get("hdr"))
         # harness self-check: the expectation derived from the wire by the independent decoder
         # equals the expectation derived from the spec
         _, item = W.single_item(data)
@@ -55,7 +55,7 @@ def response_bytes(spec, op, v, request_op):
                 raise core.HarnessError("payload codec mismatch for %s: %r vs %r" % (op.name, back, p))
         return data
     return W.build_response(v, request_op if r.get("echo", True) else None, W.STATUS_FAILED,
-                            reason=r["reason"], message=r.get("message"))
+                            reason=r["reason"], message=r.get("message"), hdr=r.get("hdr"))
 
 
 def apply_fault(data, fault):
